@@ -21,6 +21,7 @@ CONTENT = {
     "upperonly": ["B.CMake", "n.txt"],
     "casepair": ["a.cmake", "Main.cmake", "main.cmake"],     # stems that differ only in letter case
     "dotcmake": ["a.cmake", ".cmake", "..cmake"],            # nothing in front of the extension      # the only CMake file has a mixed-case extension
+    "dotonly": [".cmake", "n.txt"],          # the directory's only *.cmake entry has no base name: it counts for auto-exclusion, gets no page
     "templates": ["a.cmake", "Pkg.cmake.in", "gcc.cmake.orig", "b.cmake_"],    # '.cmake' is not the extension: no CMake files
     "formfeed": ["a.cmake", "ff.cmake"],       # ff.cmake's doccomment holds FF and LS characters
     "indexfile": ["a.cmake", "index.cmake"],    # its page has the path of the directory index (known finding K4)
